@@ -17,6 +17,7 @@ import (
 	"verifharness/prog"
 	"verifharness/rig"
 	"verifharness/runner"
+	"verifharness/simnet"
 )
 
 var cancelPoints = []string{"", "manager.sem.acquired", "conn.newstream.afterCreate", "conn.newstream.afterMeta", "manager.newstream.beforeSet", "conn.invoke.afterCreate", "conn.invoke.afterMeta", "conn.invoke.afterInvoke", "conn.invoke.afterMessage", "stream.rawwrite.locked", "stream.msgsend.locked", "stream.closesend.emit"}
@@ -104,6 +105,21 @@ func scenario(id string, seed uint64) runner.Result {
 			scripts = append(scripts, prog.GenAbort(r, uint64(i+1), cfg, payload.Pick(r, prog.AbortKinds)))
 		}
 	}
+	// sometimes one message of a streaming RPC is one the peer's decoder rejects
+	if r.Intn(4) == 0 {
+		s := scripts[r.Intn(len(scripts))]
+		acts := &s.Client
+		if r.Intn(2) == 0 {
+			acts = &s.Handler
+		}
+		for k, a := range *acts {
+			if a.Op == 's' {
+				(*acts)[k] = prog.Act{Op: 'u', Size: r.Intn(40)}
+				s.Clean = false
+				break
+			}
+		}
+	}
 	// optionally: soft cancel landing at an internal point of the first RPC
 	point := ""
 	if cfg.Client.SoftCancel && r.Intn(2) == 0 {
@@ -180,6 +196,63 @@ func scenario(id string, seed uint64) runner.Result {
 	}
 }
 
+// queuedCancel: RPC 1 is soft-cancelled while its cancel packet is parked in the
+// transport (its stream cannot finish yet); RPC 2 is issued, waits behind it and
+// is cancelled while waiting; the parked write is released; once both have
+// ended the probe must go through.
+func queuedCancel(id string, seed uint64) runner.Result {
+	r := &payload.SplitMix{S: seed}
+	cfg := prog.GenConfig(r, false)
+	cfg.Client.SoftCancel, cfg.Server.SoftCancel = true, true
+	cfg.Net.Cap = -1
+	first := &prog.Script{Tag: 1, Client: []prog.Act{{Op: 's', Size: r.Intn(200)}, {Op: 'r'}}, Handler: []prog.Act{{Op: 'R'}}}
+	if r.Intn(2) == 0 {
+		first.Handler = []prog.Act{{Op: 'r'}, {Op: 'R'}}
+	}
+	second := prog.GenClean(r, 2, cfg)
+	x := prog.New(cfg, []*prog.Script{first, second})
+	defer x.Rig.Teardown()
+	op1 := rig.Go("rpc1", func() (interface{}, error) { x.RunClient(first); return nil, nil })
+	census.Quiesce(rig.Watchdog) // rpc1 is blocked in its receive
+	gate := x.Rig.Pair.A.GateNextWrite(simnet.When(r.Intn(2)))
+	x.Log(1).Cancel()
+	census.Quiesce(rig.Watchdog) // the soft-cancel packet is parked in the transport
+	parked := rig.IsClosed(gate.Reached())
+	op2 := rig.Go("rpc2", func() (interface{}, error) { x.RunClient(second); return nil, nil })
+	census.Quiesce(rig.Watchdog)
+	waiting := !op2.Returned()
+	if l := x.Log(2); l.Cancel != nil {
+		l.Cancel()
+	}
+	census.Quiesce(rig.Watchdog)
+	gate.Release()
+	census.Quiesce(rig.Watchdog)
+	hist := fmt.Sprintf("%s | queued-cancel: rpc1 soft-cancelled with its cancel packet parked in the transport (parked=%v), rpc2 cancelled while waiting behind it (was waiting=%v), write released", cfg.Desc, parked, waiting)
+	if !op1.Returned() || !op2.Returned() {
+		return runner.Inconcl(id, "a workload call never returned: "+hist)
+	}
+	for _, l := range x.Logs() {
+		if l.HandlerRan && !l.HandlerDone {
+			return runner.Inconcl(id, "a handler never returned: "+hist)
+		}
+	}
+	verdict, _ := x.Probe(1000)
+	_, snap := census.Quiesce(rig.Watchdog)
+	closed := rig.IsClosed(x.Rig.Conn.Closed())
+	res := runner.Hold(id, hist, parked && waiting)
+	res.Events = 3
+	res.Stats = map[string]int64{"probe_" + strings.SplitN(verdict, ":", 2)[0]: 1}
+	switch {
+	case verdict == "ok" || closed:
+		return res
+	case verdict == "watchdog":
+		return runner.Inconcl(id, "watchdog: "+hist)
+	case verdict == "blocked":
+		return runner.Violation(id, "wedge:queued-rpc-cancelled-behind-soft-cancelled-stream", "connection looks healthy but the probe RPC is stuck at quiescence\n"+hist+"\n"+census.Dump(census.InDRPC(snap)))
+	}
+	return runner.Violation(id, "probe-failed:"+verdict, "connection not closed but the probe failed with "+verdict+"\n"+hist)
+}
+
 func gen(tier string, seed uint64) []runner.Scenario {
 	n := 600
 	if tier == "thorough" {
@@ -190,6 +263,10 @@ func gen(tier string, seed uint64) []runner.Scenario {
 		i := i
 		id := fmt.Sprintf("prog/%d", i)
 		out = append(out, runner.Scenario{ID: id, Run: func() runner.Result { return scenario(id, payload.Hash(seed, 0xC06, uint64(i))) }})
+		if i%6 == 0 {
+			id2 := fmt.Sprintf("queued-cancel/%d", i)
+			out = append(out, runner.Scenario{ID: id2, Run: func() runner.Result { return queuedCancel(id2, payload.Hash(seed, 0xC061, uint64(i))) }})
+		}
 	}
 	return out
 }
@@ -198,7 +275,7 @@ func main() {
 	runner.Main(runner.Check{
 		Property: "C06",
 		Level:    "exploration",
-		Rule:     "one case = one program: 1-2 RPCs drawn from clean shapes and five early-ending kinds (client cancel / close at a seeded position, client close after half-close without draining, handler error / early return at a seeded position) x configuration cell (split, writer buffer, cancel mode, transport capacity, chunkers) x optional soft cancel landing while the client goroutine is parked at one of 11 internal points (before the semaphore, after stream creation, between metadata/invoke/message writes, ...), followed by a tagged unary probe. Non-trivial: every case whose workload ended on both sides. Distinct: by configuration and program text.",
+		Rule:     "one case = one program: 1-2 RPCs drawn from clean shapes and five early-ending kinds (client cancel / close at a seeded position, client close after half-close without draining, handler error / early return at a seeded position) x configuration cell (split, writer buffer, cancel mode, transport capacity, chunkers) x optional soft cancel landing while the client goroutine is parked at one of 11 internal points (before the semaphore, after stream creation, between metadata/invoke/message writes, ...), optionally one message that the peer's decoder rejects; followed by a tagged unary probe. A second family cancels an RPC that is queued behind a soft-cancelled stream whose cancel packet is parked in the transport. Non-trivial: every case whose workload ended on both sides. Distinct: by configuration and program text.",
 		Assumptions: []string{
 			"programs that deadlock by construction (both sides waiting to receive) are rejected by an abstract simulation before they run",
 			"if the workload itself never ends (client call or handler still blocked at quiescence) the case is inconclusive for C06",
